@@ -109,7 +109,7 @@ def clause_key(oid):
     return oid
 
 
-def verify_targets(ld, targets, timeout_ms=30000, procs=16):
+def verify_targets(ld, targets, timeout_ms=30000, procs=16, short_for=None):
     """Run the engine on each target; returns (obligations, undecided list of (target, reason))."""
     obs, undecided = [], []
     t0 = time.time()
@@ -127,6 +127,12 @@ def verify_targets(ld, targets, timeout_ms=30000, procs=16):
             undecided.append((t, 'contract-target-missing %s' % e))
     gen_s = time.time() - t0
     t1 = time.time()
+    if short_for is not None:
+        # clauses the ledger records as never discharged on the unchanged tree get a short budget: re-proving that
+        # they are out of reach on every run would only burn time (they are reported as not discharged either way)
+        for o in obs:
+            if short_for.get(clause_key(o.oid)) in ('unknown', 'error'):
+                o.timeout_ms = 2500
     discharge(obs, timeout_ms=timeout_ms, procs=procs)
     return obs, undecided, gen_s, time.time() - t1
 
